@@ -30,6 +30,8 @@ pub mod c03;
 pub mod c04;
 #[cfg(feature = "c05")]
 pub mod c05;
+#[cfg(feature = "c06")]
+pub mod c06;
 #[cfg(feature = "c07")]
 pub mod c07;
 #[cfg(feature = "c08")]
@@ -60,6 +62,8 @@ pub fn registry() -> Vec<(&'static str, fn(&mut src::Tape))> {
     { v.extend_from_slice(c04::BASE); v.extend_from_slice(c04::LAT_ALL); v.extend_from_slice(c04::LON_ALL); }
     #[cfg(feature = "c05")]
     { v.extend_from_slice(c05::BASE); v.extend_from_slice(c05::LATZ_ALL); v.extend_from_slice(c05::LON_ALL); }
+    #[cfg(feature = "c06")]
+    v.extend_from_slice(c06::ALL);
     #[cfg(feature = "c07")]
     v.extend_from_slice(c07::ALL);
     #[cfg(feature = "c08")]
